@@ -18,7 +18,8 @@ Qed.
 Lemma set_of_perm (wl : wordlist) (cog : nat) :
   Permutation (set_of wl cog) (filter (fun w => w_cog w =? cog) wl).
 Proof.
-  unfold set_of. rewrite sort_keys_perm. rewrite map_map. cbn [snd]. rewrite map_id. reflexivity.
+  unfold set_of, by_id. rewrite sort_keys_perm. rewrite map_map. cbn [snd]. rewrite map_id.
+  rewrite sort_keys_perm. rewrite map_map. cbn [snd]. rewrite map_id. reflexivity.
 Qed.
 
 Lemma set_of_in (wl : wordlist) (cog : nat) (w : word) : In w (set_of wl cog) <-> In w wl /\ w_cog w = cog.
